@@ -126,10 +126,37 @@ def check(idx: Index, rep: Report, tier: str) -> str:
         r.fail(f.fq + ":allocated", Finding("C20.R3", f.fq, "unallocated-accepted", "unallocated registers are no longer rejected", f.loc))
     fr = [n for n in walk_local(f.node) if isinstance(n, ast.Raise) and "Float cyclic move without free register" in unparse(n)]
     swaps = [c for c in calls_in(f.node) if call_attr(c) == "_insert_swap_ops"]
+    # the swap loop / the failure may live in a module-level helper: the call site of the helper stands for it
+    for c in calls_in(f.node):
+        if isinstance(c.func, ast.Name):
+            h_ = idx.try_func(PM, c.func.id)
+            if h_ is None or h_.name in ("_insert_swap_ops", "_insert_mv_op"):
+                continue
+            if not swaps and any(call_attr(k) == "_insert_swap_ops" for k in calls_in(h_.raw_node)):
+                swaps = [c]
+            if not fr and any(isinstance(n, ast.Raise) and "Float cyclic move without free register" in unparse(n) for n in walk_local(h_.raw_node)):
+                fr = [c]
     if fr and swaps:
-        facts = {(unparse(t), p) for t, p in guard_facts(f.node, fr[0])}
-        sfacts = {(unparse(t), p) for t, p in guard_facts(f.node, swaps[0])}
-        ok = ("reg_type != riscv.IntRegisterType", True) in facts and ("free_registers[reg_type]", False) in facts and ("free_registers[reg_type]", False) in sfacts and ("reg_type != riscv.IntRegisterType", False) in sfacts
+        def _cls(nf):
+            """True: integer class, False: another class, None: unknown (any spelling, locals resolved)"""
+            for t_, p_ in nf:
+                if re.fullmatch(r".+ (==|is) (riscv\.)?IntRegisterType|issubclass\(.+, (riscv\.)?IntRegisterType\)|(riscv\.)?IntRegisterType (==|is) .+", t_):
+                    return p_
+            return None
+
+        def _nofree(nf):
+            for t_, p_ in nf:
+                if re.fullmatch(r"free_registers\[.+\]", t_):
+                    return not p_
+                if re.fullmatch(r"len\(free_registers\[.+\]\) == 0", t_):
+                    return p_
+                if re.fullmatch(r"len\(free_registers\[.+\]\) (>|>=) (0|1)", t_):
+                    return not p_
+            return None
+
+        nf_r = norm_facts(text_facts(f.node, fr[0]))
+        nf_s = norm_facts(text_facts(f.node, swaps[0]))
+        ok = _cls(nf_r) is False and _nofree(nf_r) is True and _cls(nf_s) is True and _nofree(nf_s) is True
         (r.ok(f.fq + ":float-cycle", f"{f.loc} xor swaps only for integer registers without scratch; other classes fail") if ok else r.fail(f.fq + ":float-cycle", Finding("C20.R3", f.fq, "float-cycle", "the xor swap must be used only for integer registers when no scratch register exists; other register classes must raise PassFailedException", f.loc)))
     else:
         r.fail(f.fq + ":float-cycle", Finding("C20.R3", f.fq, "float-cycle", "the failure path for float cycles without scratch register disappeared", f.loc))
